@@ -182,4 +182,136 @@ Proof.
   rewrite E by assumption. rewrite H_mean by assumption. reflexivity.
 Qed.
 
+
+(* ================= Boolean formulas (C15) ================= *)
+Lemma sumR_term_le (f : list nat -> R) : (forall i, 0 <= f i) ->
+  forall idx, inr idx -> f idx <= S f.
+Proof.
+  revert f. generalize sh as s. induction s as [|d s IH]; intros f Hf idx Hr.
+  - destruct idx; [|discriminate]. cbn. lra.
+  - destruct idx as [|i idx]; [discriminate|]. cbn [in_range] in Hr. apply andb_true_iff in Hr.
+    destruct Hr as [Hi Hr]. apply Nat.ltb_lt in Hi. cbn [sumidx].
+    assert (G: forall n (g : nat -> R), (forall j, 0 <= g j) -> forall j, (j < n)%nat -> g j <= sumn (K:=RO) n g).
+    { induction n as [|n IHn]; intros g Hg j Hj; [lia|]. cbn [sumn]. change (radd RO) with Rplus.
+      assert (0 <= sumn (K:=RO) n g) by (apply sumnR_nonneg; intros; apply Hg).
+      destruct (Nat.eq_dec j n) as [->|Hne]; [lra|]. specialize (IHn g Hg j ltac:(lia)). specialize (Hg n). lra. }
+    eapply Rle_trans; [apply (IH (fun x => f (i :: x)) (fun x => Hf (i :: x)) idx Hr)|].
+    apply (G d (fun j => sumR s (fun x => f (j :: x)))); auto.
+    intros j. apply sumR_nonneg. intros; apply Hf.
+Qed.
+
+Inductive form := FSym (n : nat) | FTrue | FFalse | FNot (f : form)
+                | FAnd (f g : form) | FOr (f g : form) | FXor (f g : form).
+Variable sym : nat -> tensor.
+Variables t_true t_false : tensor.
+Definition bit (x : list nat) (n : nat) : bool := Nat.eqb (nth n x O) 1.
+Definition b2r (b : bool) : R := if b then 1 else 0.
+Hypothesis H_sym : forall n, ok (sym n) /\ forall x, inr x -> den (sym n) x = b2r (bit x n).
+Hypothesis H_true : ok t_true /\ forall x, inr x -> den t_true x = 1.
+Hypothesis H_false : ok t_false /\ forall x, inr x -> den t_false x = 0.
+
+Fixpoint truth (f : form) (x : list nat) : bool :=
+  match f with
+  | FSym n => bit x n | FTrue => true | FFalse => false
+  | FNot f => negb (truth f x) | FAnd f g => truth f x && truth g x
+  | FOr f g => truth f x || truth g x | FXor f g => xorb (truth f x) (truth g x)
+  end.
+
+(* the formula built through the operators of the code: ~ & | ^ are the generated definitions *)
+Fixpoint interp (f : form) : tensor :=
+  match f with
+  | FSym n => sym n | FTrue => t_true | FFalse => t_false
+  | FNot f => g_not (interp f) | FAnd f g => g_and (interp f) (interp g)
+  | FOr f g => g_or (interp f) (interp g) | FXor f g => g_xor (interp f) (interp g)
+  end.
+
+Theorem formula_truth_table (f : form) :
+  ok (interp f) /\ forall x, inr x -> den (interp f) x = b2r (truth f x).
+Proof.
+  induction f as [n| | |f [Of Ef]|f [Of Ef] g [Og Eg]|f [Of Ef] g [Og Eg]|f [Of Ef] g [Og Eg]]; cbn [interp truth].
+  - apply H_sym.
+  - exact H_true.
+  - exact H_false.
+  - destruct (gen_not_den (interp f) Of) as [O E]. split; [exact O|]. intros x Hx.
+    rewrite E, Ef by assumption. destruct (truth f x); cbn; lra.
+  - destruct (gen_and_den (interp f) (interp g) Of Og) as [O E]. split; [exact O|]. intros x Hx.
+    rewrite E, Ef, Eg by assumption. destruct (truth f x), (truth g x); cbn; lra.
+  - destruct (gen_or_den (interp f) (interp g) Of Og) as [O E]. split; [exact O|]. intros x Hx.
+    rewrite E, Ef, Eg by assumption. destruct (truth f x), (truth g x); cbn; lra.
+  - destruct (gen_xor_den (interp f) (interp g) Of Og) as [O E]. split; [exact O|]. intros x Hx.
+    rewrite E, Ef, Eg by assumption. destruct (truth f x), (truth g x); cbn; lra.
+Qed.
+
+Notation g_contra := (gen_logic_is_contradiction tensor t_dot).
+Notation g_taut := (gen_logic_is_tautology tensor t_dot t_smul t_sadd).
+Notation g_sat := (gen_logic_is_satisfiable tensor t_sum).
+Notation g_implies := (gen_logic_implies tensor t_dot t_mul t_smul t_sadd).
+Notation g_equiv := (gen_logic_equiv tensor t_dot t_mul t_smul t_sadd).
+
+Lemma b2r_sq b : sq (b2r b) = b2r b. Proof. destruct b; unfold sq; cbn; lra. Qed.
+Lemma b2r_nonneg b : 0 <= b2r b. Proof. destruct b; cbn; lra. Qed.
+
+Lemma contra_iff (f : form) :
+  g_contra (interp f) <-> forall x, inr x -> truth f x = false.
+Proof.
+  destruct (formula_truth_table f) as [O E]. unfold gen_logic_is_contradiction.
+  rewrite (gen_norm_spec (interp f) O).
+  rewrite (S_ext _ (fun i => b2r (truth f i))) by (intros i Hi; rewrite E by assumption; apply b2r_sq).
+  split.
+  - intros H x Hx.
+    assert (Hs: 0 <= S (fun i => b2r (truth f i))) by (apply sumR_nonneg; intros; apply b2r_nonneg).
+    assert (Hle := sumR_term_le (fun i => b2r (truth f i)) (fun i => b2r_nonneg _) x Hx). cbv beta in Hle.
+    destruct (truth f x); [|reflexivity]. exfalso. cbn in Hle.
+    assert (1 <= sqrt (S (fun i => b2r (truth f i)))).
+    { rewrite <- sqrt_1. apply sqrt_le_1; lra. }
+    lra.
+  - intros H. rewrite (S_ext _ (fun _ => 0)) by (intros i Hi; rewrite (H i Hi); reflexivity).
+    rewrite (sumidx_zero (K:=RO) RO_laws). change (r0 RO) with 0. rewrite sqrt_0. lra.
+Qed.
+
+Theorem is_contradiction_spec (f : form) :
+  g_contra (interp f) <-> forall x, inr x -> truth f x = false.
+Proof. apply contra_iff. Qed.
+
+Theorem is_tautology_spec (f : form) :
+  g_taut (interp f) <-> forall x, inr x -> truth f x = true.
+Proof.
+  unfold gen_logic_is_tautology. change (g_contra (interp (FNot f)) <-> forall x, inr x -> truth f x = true).
+  rewrite contra_iff. cbn [truth]. split; intros H x Hx; specialize (H x Hx); destruct (truth f x); auto; discriminate.
+Qed.
+
+Theorem is_satisfiable_spec (f : form) :
+  g_sat (interp f) <-> ~ (forall x, inr x -> truth f x = false).
+Proof.
+  destruct (formula_truth_table f) as [O E]. unfold gen_logic_is_satisfiable.
+  rewrite (H_sum (interp f) O).
+  rewrite (S_ext _ (fun i => b2r (truth f i))) by (intros i Hi; apply E; assumption).
+  split.
+  - intros H Hall. rewrite (S_ext _ (fun _ => 0)) in H by (intros i Hi; rewrite (Hall i Hi); reflexivity).
+    rewrite (sumidx_zero (K:=RO) RO_laws) in H. change (r0 RO) with 0 in H. lra.
+  - intros H. apply Rnot_lt_ge. intros Hlt. apply H. intros x Hx.
+    assert (Hle := sumR_term_le (fun i => b2r (truth f i)) (fun i => b2r_nonneg _) x Hx). cbv beta in Hle.
+    destruct (truth f x); [|reflexivity]. cbn in Hle. lra.
+Qed.
+
+Theorem implies_spec (f g : form) :
+  g_implies (interp f) (interp g) <-> forall x, inr x -> truth f x = true -> truth g x = true.
+Proof.
+  unfold gen_logic_implies.
+  change (g_contra (interp (FAnd f (FNot g))) <-> (forall x, inr x -> truth f x = true -> truth g x = true)).
+  rewrite contra_iff. cbn [truth]. split; intros H x Hx.
+  - specialize (H x Hx). destruct (truth f x), (truth g x); auto; discriminate.
+  - specialize (H x Hx). destruct (truth f x), (truth g x); auto. discriminate H; auto.
+Qed.
+
+Theorem equiv_spec (f g : form) :
+  g_equiv (interp f) (interp g) <-> forall x, inr x -> truth f x = truth g x.
+Proof.
+  unfold gen_logic_equiv. rewrite !implies_spec. split.
+  - intros [H1 H2] x Hx. specialize (H1 x Hx). specialize (H2 x Hx).
+    destruct (truth f x) eqn:Ef, (truth g x) eqn:Eg; auto;
+      try (symmetry; apply H1; reflexivity); try (apply H2; reflexivity).
+  - intros H. split; intros x Hx Ht; specialize (H x Hx); congruence.
+Qed.
+
 End GenP.
